@@ -357,6 +357,76 @@ func (p *specParser) primary() SExpr {
 	panic("unexpected token " + t)
 }
 
+type macroDef struct {
+	params []string
+	body   string
+}
+
+var macroRe = regexp.MustCompile(`^macro\s+([A-Za-z_][A-Za-z0-9_]*)\(([^)]*)\)\s*=\s*(.*)$`)
+
+// expandMacros replaces NAME(arg, ...) by the macro body with parameters substituted textually.
+func expandMacros(l string, macros map[string]macroDef) string {
+	for iter := 0; iter < 20; iter++ {
+		changed := false
+		for name, def := range macros {
+			for {
+				i := indexWord(l, name+"(")
+				if i < 0 {
+					break
+				}
+				// find matching paren
+				j := i + len(name) + 1
+				depth := 1
+				start := j
+				var args []string
+				for ; j < len(l) && depth > 0; j++ {
+					switch l[j] {
+					case '(':
+						depth++
+					case ')':
+						depth--
+						if depth == 0 {
+							args = append(args, strings.TrimSpace(l[start:j]))
+						}
+					case ',':
+						if depth == 1 {
+							args = append(args, strings.TrimSpace(l[start:j]))
+							start = j + 1
+						}
+					}
+				}
+				body := def.body
+				for k, p := range def.params {
+					if k < len(args) {
+						body = regexp.MustCompile(`\b`+regexp.QuoteMeta(p)+`\b`).ReplaceAllString(body, "("+args[k]+")")
+					}
+				}
+				l = l[:i] + "(" + body + ")" + l[j:]
+				changed = true
+			}
+		}
+		if !changed {
+			break
+		}
+	}
+	return l
+}
+
+func indexWord(s, w string) int {
+	from := 0
+	for {
+		i := strings.Index(s[from:], w)
+		if i < 0 {
+			return -1
+		}
+		i += from
+		if i == 0 || !(unicode.IsLetter(rune(s[i-1])) || unicode.IsDigit(rune(s[i-1])) || s[i-1] == '_' || s[i-1] == '.') {
+			return i
+		}
+		from = i + 1
+	}
+}
+
 var labelRe = regexp.MustCompile(`^([A-Za-z_][A-Za-z0-9_\-]*):\s`)
 var propsRe = regexp.MustCompile(`^\[([A-Z0-9, ]+)\]\s*`)
 
@@ -449,11 +519,27 @@ func loadContractFile(file string, out map[string]*FuncContract) error {
 		}
 		lines = append(lines, body)
 	}
+	macros := map[string]macroDef{}
 	for _, l := range lines {
 		// strip trailing comment " -- ..."
 		if i := strings.Index(l, " -- "); i >= 0 {
 			l = strings.TrimSpace(l[:i])
 		}
+		if strings.HasPrefix(l, "macro ") {
+			m := macroRe.FindStringSubmatch(l)
+			if m == nil {
+				return fmt.Errorf("%s: bad macro %q", file, l)
+			}
+			var params []string
+			for _, p := range strings.Split(m[2], ",") {
+				if p = strings.TrimSpace(p); p != "" {
+					params = append(params, p)
+				}
+			}
+			macros[m[1]] = macroDef{params, expandMacros(strings.TrimSpace(m[3]), macros)}
+			continue
+		}
+		l = expandMacros(l, macros)
 		kw := l
 		rest := ""
 		if i := strings.IndexAny(l, " \t"); i >= 0 {
